@@ -186,7 +186,7 @@ PROPS["C01"] = dict(
     technique="property-based testing (rapid) of generated timed plans (callers, cancellations, latencies, pushes) against a wire-level fake Redis inside a testing/synctest bubble; oracle = per-position reply identity + server-side frame log + hang/leak detection",
     level_text="Thousands of generated interleavings of concurrent Do/DoMulti/DoCache/DoMultiCache/blocking/Receive calls with cancellations and deadlines at exact virtual instants, arbitrary reply shapes, Pub/Sub pushes between replies, both queue implementations, ring sizes 2-16, RESP2 and RESP3; each result position must be that command's own reply tree.",
     level_note="Black-box through the public API; the fake server's framing is trusted (it is exercised against the real decoder in every case). Same-instant goroutine races are sampled, not enumerated. Attributes are not visible through the public API (checked in-package by C12). " + LIMITS,
-    units=[U("harness", "props", "TestVerif_C01_Pipelining", T(1500, timeout=300), T(6000, shards=16, timeout=1500, race_checks=600), variants=QUEUES, race=True)],
+    units=[U("harness", "props", "TestVerif_C01_Pipelining", T(1500, timeout=300), T(6000, shards=16, timeout=1500, race_checks=300), variants=QUEUES, race=True)],
 )
 
 PROPS["C03"] = dict(
